@@ -33,3 +33,19 @@ Check (C06_reported_duration_is_that_tick_count_over_90000 : (forall m s m',
   st_duration s = fdiv (of_N (match max_end_pts (m_writer m) with Some t => t | None => 0 end)) f_90000)%type).
 Check (C06_nothing_is_written_after_finalization : (forall m ops,
   w_finalized (m_writer m) = true -> sink_of (fst (run m ops)) = sink_of m)%type).
+Check (C06_duration_roundtrip : (forall n : N, n < 2251799813685248 -> tick (fdiv (of_N n) f_90000) = n)%type).
+Check (C06_history_accounts_for_everything : (forall b m0 ops m rs,
+  build b [] = inl m0 -> run m0 ops = (m, rs) ->
+  Forall op_payload_ok ops ->
+  len (sink_of m) < 18446744073709551616 ->
+  (first_stats rs <> None -> expected_max_end (accepted b ops (map class_of rs)) < 2251799813685248) ->
+  check_C06 b ops (map class_of rs) (run_lens m0 ops) (first_stats rs) true = true)%type).
+Check (C06_history_accounts_for_everything_any_sink : (forall b script m0 ops m rs,
+  build b script = inl m0 -> run m0 ops = (m, rs) ->
+  Forall op_payload_ok ops ->
+  (first_stats rs <> None -> expected_max_end (accepted b ops (map class_of rs)) < 2251799813685248) ->
+  check_C06 b ops (map class_of rs) (run_lens m0 ops) (first_stats rs) false = true)%type).
+Check (C06_duration_clause_unsatisfiable_beyond_2p51_refuted : (exists b m0 ops m rs,
+    build b [] = inl m0 /\ run m0 ops = (m, rs) /\ Forall op_payload_ok ops /\
+    (forall p, ~ In (RPanic p) rs) /\ len (sink_of m) < 4294967296 /\
+    check_C06 b ops (map class_of rs) (run_lens m0 ops) (first_stats rs) true = false)%type).
